@@ -301,6 +301,10 @@ class _Return(Exception):
         self.value = value
 
 
+class _Reraise(Exception):
+    pass
+
+
 class _Break(Exception):
     pass
 
@@ -869,7 +873,7 @@ class Interp:
             return
         elif isinstance(s, ast.Raise):
             if s.exc is None:
-                raise Unsupported("bare raise")
+                raise _Reraise()
             name = _exc_name(s.exc)
             raise SymRaise(name, "raise")
         elif isinstance(s, ast.Assert):
@@ -959,7 +963,10 @@ class Interp:
                 if names is None or e.exc_name in names or "Exception" in names:
                     if h.name:
                         env.set(h.name, e)
-                    self.exec_block(h.body, env, mod, cls, fn)
+                    try:
+                        self.exec_block(h.body, env, mod, cls, fn)
+                    except _Reraise:
+                        raise e
                     return
             raise
         else:
